@@ -612,6 +612,11 @@ fn for_variants(raw: &RawFile, spec: &Spec, z: Zmode, rng: &mut Rng, o: &Opts, s
             if !keep(rng, o) {
                 continue;
             }
+            // a declared uncompressed size of a gigabyte makes the reader map and
+            // unmap that much; once per file is enough
+            if f.kind == FieldKind::UncompSize && f.index > 0 && new >= 1 << 24 {
+                continue;
+            }
             buf[f.pos..f.pos + 4].copy_from_slice(&new.to_le_bytes());
             sink(&buf, "field", f.kind.name(), &|| format!("{}[{}] at byte {}: {} -> {}", f.kind.name(), f.index, f.pos, f.value, new));
         }
@@ -873,7 +878,7 @@ fn mem_case(ctx: &mut Ctx, rng: &mut Rng) {
         sample: if miri { 23 } else if big { 16 } else { 1 },
         trunc_all_below: if ctx.tier == Tier::Thorough { 4096 } else { 1200 },
         trunc_samples: if miri { 4 } else { 200 },
-        huge: !ctx.is_sanitizer_tier(),
+        huge: !ctx.is_sanitizer_tier() && rng.chance(1, 6),
     };
     let reversed = rng.chance(1, 12);
     let mut hash = 0u64;
@@ -1092,8 +1097,11 @@ fn gen_random_file(rng: &mut Rng) -> (Vec<u8>, &'static str) {
     }
 }
 
-fn random_case(ctx: &mut Ctx, rng: &mut Rng, distinct: &mut std::collections::HashSet<u64>) {
-    ctx.arm("raw::Reader", 120.0);
+fn random_case(ctx: &mut Ctx, idx: u64, rng: &mut Rng, distinct: &mut std::collections::HashSet<u64>) {
+    // reading the process CPU clock is a system call: re-arm once per 1024 files
+    if idx % 1024 == 0 || ctx.replay.is_some() {
+        ctx.arm("raw::Reader", 300.0);
+    }
     let (bytes, kind) = gen_random_file(rng);
     // version 4 blocks need zlib; decide by peeking at the version field ourselves
     let is_v4 = bytes.len() >= 8 && bytes[4..8] == 4i32.to_le_bytes();
@@ -1102,7 +1110,6 @@ fn random_case(ctx: &mut Ctx, rng: &mut Rng, distinct: &mut std::collections::Ha
     ctx.count("files_random", 1);
     ctx.count(&format!("random.{}", kind), 1);
     note_outcome_mem(ctx, "random", kind, &out);
-    ctx.disarm();
     let accepted = matches!(out, Some(Ok(_)));
     // distinct files are counted in a local set (reported in bulk) to keep the shard output small
     ctx.case(None);
@@ -2155,7 +2162,24 @@ fn disk_map_case(ctx: &mut Ctx, rng: &mut Rng, tmp: &Tmp) {
 
 // ---------------------------------------------------------------- main
 
+/// Declared sizes of up to 2 GiB make the readers allocate (and barely touch)
+/// huge buffers; with transparent huge pages every such touch zeroes 2 MiB.
+/// Purely a speed matter.
+#[cfg(all(target_os = "linux", not(miri)))]
+fn disable_thp() {
+    const PR_SET_THP_DISABLE: libc::c_int = 41;
+    unsafe {
+        libc::prctl(PR_SET_THP_DISABLE, 1 as libc::c_ulong, 0 as libc::c_ulong, 0 as libc::c_ulong, 0 as libc::c_ulong);
+        // serve buffers of up to 32 MiB from the heap instead of mmap/munmap pairs
+        libc::mallopt(libc::M_MMAP_THRESHOLD, 32 << 20);
+        libc::mallopt(libc::M_TRIM_THRESHOLD, 256 << 20);
+    }
+}
+#[cfg(not(all(target_os = "linux", not(miri))))]
+fn disable_thp() {}
+
 fn main() {
+    disable_thp();
     let mut ctx = Ctx::from_args("C16");
     ctx.rule = "raw-mem: a PRNG item/data set (0-5 item types, 0-4 items each, 0-20 ints, 0-4 data items of 0-300 bytes, sometimes 65-140 KB) is written by the independent writer as version 3 and version 4 (zlib via own stored-block writer or zlib compress); from each honest file every derived file is produced and opened through raw::Reader with in-memory callbacks: every 32-bit field of header, type table, offset tables, data sizes, item headers set to each of {0,1,-1,v+1,v-1,v+2,v+3,v+4,v-4,MIN,MIN+1,MAX,just-past-the-end and its neighbours,-v,0xffff,0x10000}, truncation at every length (files up to 1200 bytes; sampled above), trailing garbage, per data block: bad adler/header, every stream truncation, garbage, flipped bits, content larger/smaller than declared, a 256 KiB bomb; consistent multi-field deviations (item sizes not divisible by four with matching offsets, crude v4 size, empty type, descending/duplicate type ids, huge declared counts); a failing callback at every call position. random: PRNG bytes behind a valid magic and PRNG tables with consistent size fields. disk-df / disk-map: one PRNG-chosen variant per case written to /dev/shm and opened with datafile::Reader / map::Reader, every accessor called. Non-trivial = at least one item or data item; distinct = hash of the honest files / of the file bytes.".into();
     ctx.assumptions = vec![
@@ -2167,11 +2191,12 @@ fn main() {
     ];
     let miri = ctx.tier == Tier::Miri || cfg!(miri);
 
-    let n_mem = ctx.volume(1_000, 30_000, 3, 12);
+    let n_mem = ctx.volume(600, 18_000, 3, 12);
     ctx.run_cases("raw-mem", n_mem, |ctx, _idx, rng| mem_case(ctx, rng));
-    let n_rand = ctx.volume(250_000, 7_500_000, 100, 3_000);
+    let n_rand = ctx.volume(150_000, 4_500_000, 100, 3_000);
     let mut distinct_random = std::collections::HashSet::new();
-    ctx.run_cases("random", n_rand, |ctx, _idx, rng| random_case(ctx, rng, &mut distinct_random));
+    ctx.run_cases("random", n_rand, |ctx, idx, rng| random_case(ctx, idx, rng, &mut distinct_random));
+    ctx.disarm();
     ctx.cases_bulk(0, distinct_random.len() as u64);
     ctx.count("random_distinct_files", distinct_random.len() as u64);
 
